@@ -112,6 +112,15 @@ func (h *histRun) val(code int) any {
 	switch {
 	case code == 0:
 		return nil
+	case code >= condCodeBase:
+		// a Condition whose expression is a Stack: an ordinary value for the list
+		// (it is not a Stack, whatever it holds)
+		if v, ok := h.nested[code]; ok {
+			return v
+		}
+		v := stk.Cond("k", stk.Eq, stk.Basic().Push("held")).SetID(fmt.Sprintf("c%d", code))
+		h.nested[code] = v
+		return v
 	case code > 0:
 		return code
 	}
@@ -134,6 +143,11 @@ func (h *histRun) val(code int) any {
 func (h *histRun) code(v any) (string, any) {
 	if v == nil {
 		return "(SVal ENil)", nil
+	}
+	if c, ok := v.(stk.Condition); ok {
+		var n int
+		fmt.Sscanf(c.ID(), "c%d", &n)
+		return fmt.Sprintf("(SVal (EV %s))", coqZ(n)), fmt.Sprintf("cond#%d", n)
 	}
 	switch tv := v.(type) {
 	case int:
@@ -171,6 +185,9 @@ func coqTri(t int) string {
 	return "None"
 }
 
+// value codes >= condCodeBase stand for Conditions holding a Stack
+const condCodeBase = 5000
+
 func codeTerm(c int) string {
 	switch {
 	case c == 0:
@@ -192,6 +209,8 @@ func (h *histRun) policy(p int) stk.PushPolicy {
 				c = 0
 			case int:
 				c = tv
+			case stk.Condition:
+				fmt.Sscanf(tv.ID(), "c%d", &c)
 			default:
 				if s, ok := stk.ConvertStack(tv); ok {
 					var n int
@@ -516,6 +535,8 @@ func randVal(r *Rng, stacks bool) int {
 		return 0
 	case stacks && x < 27:
 		return -(1 + r.Intn(8))
+	case stacks && x < 33:
+		return condCodeBase + r.Intn(4)
 	}
 	return 1 + r.Intn(9)
 }
@@ -708,7 +729,7 @@ func genIndexSweep(ctx *Ctx, emit func(any, string)) {
 // primitives, with the no-nesting option switched between batches
 func genNesting(ctx *Ctx, emit func(any, string)) {
 	// exhaustive: option state x batch of length <= 3 over {int, nil, native, alias, ptr-alias}
-	alpha := []int{1, 0, -1, -2, -4}
+	alpha := []int{1, 0, -1, -2, -4, condCodeBase}
 	var batches [][]int
 	var rec func(p []int, d int)
 	rec = func(p []int, d int) {
@@ -728,10 +749,15 @@ func genNesting(ctx *Ctx, emit func(any, string)) {
 			if ctx.Quick() && kind != "AND" && len(b) > 2 {
 				continue
 			}
-			for nn := 0; nn < 2; nn++ {
+			for nn := 0; nn < 4; nn++ {
 				in := HistInput{Kind: kind, Cap: -1, Obs: true}
-				in.Ops = append(in.Ops, HOp{Op: "push", Vs: []int{-3, 2}})
-				if nn == 1 {
+				if nn < 2 {
+					in.Ops = append(in.Ops, HOp{Op: "push", Vs: []int{-3, 2}})
+				} else {
+					// no Stack among the first elements: whether the stack nests depends on the batch alone
+					in.Ops = append(in.Ops, HOp{Op: "push", Vs: []int{2}}, HOp{Op: "isnesting"})
+				}
+				if nn%2 == 1 {
 					in.Ops = append(in.Ops, HOp{Op: "setopt", I: 256, T: 1})
 				}
 				in.Ops = append(in.Ops, HOp{Op: "cannest"}, HOp{Op: "push", Vs: b}, HOp{Op: "isnesting"},
